@@ -96,13 +96,13 @@ class FrozenChoices:
 
 def run_case(spec, seed=None, values=None, force=None):
     if getattr(spec, "ISOLATE", False):
-        return _run_case_forked(spec, seed, values)
+        return _run_case_forked(spec, seed, values, force)
     ch = Choices(seed=seed, replay=values if (values is not None or force is None) else [], force=force)
     out = spec.case(ch)
     return out, ch
 
 
-def _run_case_forked(spec, seed, values):
+def _run_case_forked(spec, seed, values, force=None):
     """Run one case in a forked child, so that it starts from the process-global state of a fresh process
     (class attributes, module globals, caches) -- for properties that speak about fresh processes."""
     import pickle
@@ -112,11 +112,14 @@ def _run_case_forked(spec, seed, values):
         code = 0
         try:
             os.close(r)
-            ch = Choices(seed=seed, replay=values)
+            ch = Choices(seed=seed, replay=values if (values is not None or force is None) else [], force=force)
             out = spec.case(ch)
             payload = pickle.dumps({"ok": True, "log": ch.log, "out": {
                 "violations": out.violations, "stats": dict(out.stats), "fps": list(out.fps), "states": list(out.states),
                 "sample": out.sample, "sim_time": out.sim_time, "digest": out.digest(), "maxima": out.maxima, "trace": getattr(out, "trace", None)}})
+        except KernelStuck as e:
+            payload = pickle.dumps({"ok": False, "stuck": str(e)})
+            code = 4
         except BaseException:       # noqa: BLE001
             payload = pickle.dumps({"ok": False, "error": traceback.format_exc()})
             code = 3
@@ -134,6 +137,8 @@ def _run_case_forked(spec, seed, values):
     if not data:
         raise HarnessError("isolated case (seed %r) died without reporting" % (seed,))
     d = pickle.loads(data)
+    if not d["ok"] and "stuck" in d:
+        raise KernelStuck(d["stuck"])
     if not d["ok"]:
         raise HarnessError("isolated case (seed %r) failed in the harness:\n%s" % (seed, d["error"]))
     return FrozenOutcome(d["out"]), FrozenChoices(d["log"])
